@@ -288,6 +288,11 @@ func (g *bridgeGen) depositItem(d *depInfo, flaw string) (*bitcointypes.Deposit,
 		pr[g.r.Intn(len(pr))] ^= 0x10
 		dep.IntermediateProof = pr
 		f["spvOk"] = false
+	case "proofRagged": // the genuine path followed by 1..31 stray bytes: not a sequence of hashes
+		stray := make([]byte, 1+g.r.Intn(31))
+		g.r.Read(stray)
+		dep.IntermediateProof = append(append([]byte{}, dep.IntermediateProof...), stray...)
+		f["spvOk"] = false
 	case "proofTrunc":
 		if len(dep.IntermediateProof) >= 32 {
 			dep.IntermediateProof = dep.IntermediateProof[:len(dep.IntermediateProof)-32]
@@ -603,8 +608,16 @@ func (g *bridgeGen) plan(mode string) (*BlockPlan, error) {
 	}
 	votedUsed := false // at most one genuine voted message per block (the sequence advances)
 	ntx := r.Intn(5)
+	nearCb := mode == "deep" && g.cbDep != nil && !g.cbDep.credited && int64(g.cbDep.blk)+95 <= st.Tip && st.Tip <= int64(g.cbDep.blk)+102
+	if nearCb && ntx < 2 {
+		ntx = 2
+	}
 	for k := 0; k < ntx; k++ {
-		switch x := r.Intn(20); {
+		x := r.Intn(20)
+		if nearCb && k == 0 {
+			x = 10 // present the coinbase deposit at every height around its maturity
+		}
+		switch {
 		case x < 6: // vote block hashes
 			if votedUsed {
 				continue
@@ -619,6 +632,13 @@ func (g *bridgeGen) plan(mode string) (*BlockPlan, error) {
 			}
 			if mode == "deep" {
 				n = 16
+				// approach the coinbase-maturity boundary one block at a time, so that "99 above" and "100 above" both occur
+				if g.cbDep != nil && !g.cbDep.credited && start+15 >= g.cbDep.blk+96 && start <= g.cbDep.blk+102 {
+					n = 1
+					if start+uint64(n) <= g.cbDep.blk+96 {
+						n = int(g.cbDep.blk + 96 - start)
+					}
+				}
 			}
 			for g.mined < start+uint64(n)-1 && mode == "deep" {
 				g.mine()
@@ -634,9 +654,12 @@ func (g *bridgeGen) plan(mode string) (*BlockPlan, error) {
 			}
 			f := Ev{"wf": true, "start": int64(start), "hashes": hs}
 			bad := rare(10)
-			if rare(12) {
-				m.StartBlockNumber += uint64(1 + r.Intn(2))
-				f["start"] = int64(m.StartBlockNumber)
+			if rare(12) || (n == 0 && rare(2)) { // a batch (also an empty one) that does not start right above the tip
+				d := []int64{1, 2, -1, -2, -int64(start) + 1}[r.Intn(5)]
+				if int64(start)+d >= 1 {
+					m.StartBlockNumber = uint64(int64(start) + d)
+					f["start"] = int64(m.StartBlockNumber)
+				}
 			}
 			vt, ok := s.fullVote(vc, "NewBlockHashes", m.VoteSigDoc(), bad)
 			m.Vote = vt
@@ -677,7 +700,8 @@ func (g *bridgeGen) plan(mode string) (*BlockPlan, error) {
 			if len(cand) == 0 {
 				continue
 			}
-			if g.mode == "deep" && g.cbDep != nil && rare(2) {
+			nearMaturity := g.cbDep != nil && int64(g.cbDep.blk)+95 <= st.Tip && st.Tip <= int64(g.cbDep.blk)+102
+			if g.mode == "deep" && g.cbDep != nil && (rare(2) || nearMaturity) {
 				cand = []*depInfo{g.cbDep}
 			}
 			m := &bitcointypes.MsgNewDeposits{Proposer: s.member(vc.Proposer).Bech}
@@ -691,7 +715,7 @@ func (g *bridgeGen) plan(mode string) (*BlockPlan, error) {
 				} else if mode == "addr" && rare(3) {
 					flaw = []string{"otherEvm", "otherKey", "version", "otherOut"}[r.Intn(4)]
 				} else if rare(4) {
-					flaw = []string{"otherEvm", "otherKey", "version", "version2", "outIdx", "otherOut", "pos", "posAlias", "proof", "proofTrunc", "header", "noHeader", "evmLen", "txTrunc"}[r.Intn(14)]
+					flaw = []string{"otherEvm", "otherKey", "version", "version2", "outIdx", "otherOut", "pos", "posAlias", "proof", "proofTrunc", "proofRagged", "header", "noHeader", "evmLen", "txTrunc"}[r.Intn(15)]
 				}
 				dep, hdr, f := g.depositItem(d, flaw)
 				m.Deposits = append(m.Deposits, dep)
@@ -860,6 +884,9 @@ func (g *bridgeGen) processTx(vc *voteCtx, st *project.BridgeState) (*brTx, erro
 		outs = append(outs, btc.Out{Value: 1, Script: []byte{txscript.OP_TRUE}}, btc.Out{Value: 1, Script: []byte{txscript.OP_TRUE}})
 		outsAbs = append(outsAbs, Ev{"script": "51", "value": int64(1)}, Ev{"script": "51", "value": int64(1)})
 	}
+	if rare(15) && len(outs) > 1 { // fewer outputs than withdrawals
+		outs, outsAbs = outs[:len(outs)-1], outsAbs[:len(outsAbs)-1]
+	}
 	raw, txid := btc.Tx(r, outs, r.Intn(40))
 	size := int64(len(raw))
 	if minPrice > 1000 {
@@ -871,6 +898,9 @@ func (g *bridgeGen) processTx(vc *voteCtx, st *project.BridgeState) (*brTx, erro
 	}
 	if replace && !rare(8) && fee <= prevFee {
 		fee = prevFee + 1 + int64(r.Intn(30))
+	}
+	if replace && rare(4) {
+		fee = prevFee // a replacement must pay strictly more: the same fee is no fee bump
 	}
 	if fee < 1 {
 		fee = 1
@@ -923,7 +953,12 @@ func (g *bridgeGen) finalizeMsg(vc *voteCtx, st *project.BridgeState) (sdk.Msg, 
 		TxIndex: uint32(w.pos), IntermediateProof: flat(blk.tree.Path(w.pos)), BlockHeader: blk.header}
 	f := Ev{"wf": true, "pid": w.pid, "txid": project.H6(w.txid), "blk": int64(w.blk), "hdr": project.H6(blk.hash), "spvOk": true}
 	if rare(5) {
-		switch r.Intn(5) {
+		switch r.Intn(6) {
+		case 5: // ragged path
+			stray := make([]byte, 1+r.Intn(31))
+			r.Read(stray)
+			m.IntermediateProof = append(append([]byte{}, m.IntermediateProof...), stray...)
+			f["spvOk"] = false
 		case 0:
 			m.Pid += uint64(1 + r.Intn(2))
 			f["pid"] = int64(m.Pid)
